@@ -114,6 +114,11 @@ def verify_function(qualname, options=None, timeout_ms=10000, repo_root=None):
     except RecursionError:
         res["status"] = "undecided"
         res["reason"] = "recursion limit in translation"
+    except (TypeError, AttributeError, KeyError, IndexError, AssertionError, ValueError, z3.Z3Exception) as e:
+        # the translation met a value shape it has no rule for (typically after the source was changed): the function is
+        # UNDECIDED for this run - reported, never a violation, and the bounded stand-ins still run
+        res["status"] = "undecided"
+        res["reason"] = f"unsupported (internal: {type(e).__name__}: {str(e)[:200]}) {traceback.format_exc().strip().splitlines()[-3][:160]}"
     except Exception as e:  # checker error: never a violation
         res["status"] = "error"
         res["reason"] = f"{type(e).__name__}: {e}\n{traceback.format_exc()[-1500:]}"
